@@ -113,6 +113,9 @@ func (b *builder) style(chain []string, tag int) *astisub.Style {
 	s := &astisub.Style{ID: chain[0], Style: b.style(chain[1:], 0)}
 	if tag != 0 {
 		s.InlineStyle = &astisub.StyleAttributes{SSAFontName: "t" + strconv.Itoa(tag)}
+		if tag == 2 { // a style that carries a WebVTT stylesheet is a style like any other
+			s.InlineStyle.WebVTTStyles = []string{"::cue(." + chain[0] + ") { color: red }"}
+		}
 	}
 	b.memo[k] = s
 	return s
